@@ -107,6 +107,39 @@ mod verif_nx_pipeline {
         assert!(n > 6_000, "enumeration ran");
     }
 
+    // thorough tier only: every soup of 4 items (C04 + C01), 8 parallel shards
+    #[test]
+    fn verif_nx_pipeline_soup_len4_thorough() {
+        if std::env::var("VERIF_NX_THOROUGH").is_err() {
+            println!("NX pipeline_soup_len4_thorough: 0 cases (quick tier: skipped)");
+            return;
+        }
+        let handles: Vec<_> = (0..8usize).map(|k| std::thread::spawn(move || {
+            let cfg = leak(config(false, 2, 2, false, 30, false));
+            let mut n = 0u64;
+            let mut i = 0usize;
+            for_each_soup(4, &mut |s| {
+                i += 1;
+                if i % 8 != k {
+                    return;
+                }
+                let (out, _) = fmt(cfg, s, vec![0, s.len() as u32 / 2, s.len() as u32 + 1]);
+                assert!(nb(&out) == nb(s), "OB pipeline/non_blank_preserved: the output has the same non-blank characters in the same order (ASCII case aside)\n input={:?}\n output={:?}", s, out);
+                n += 1;
+            });
+            n
+        })).collect();
+        let mut n = 0u64;
+        for h in handles {
+            match h.join() {
+                Ok(c) => n += c,
+                Err(e) => std::panic::resume_unwind(e),
+            }
+        }
+        println!("NX pipeline_soup_len4_thorough: {} cases", n);
+        assert!(n > 200_000, "enumeration ran");
+    }
+
     // C04 + C01 + C15 on arbitrary token soup
     #[test]
     fn verif_nx_pipeline_soup() {
